@@ -18,6 +18,8 @@ enum Op {
     Relax(u64, String, BTreeMap<String, String>),
     Restore(u64),
     Eval(usize),
+    /// evaluate_samples over both probe states (ids sharing states), compared with the reference per sample
+    EvalSamples,
 }
 
 fn all_constraints(inst: &v1::Instance) -> Result<BTreeMap<u64, v1::Constraint>, String> {
@@ -47,7 +49,7 @@ impl Property for C14 {
          oracle = two-map model (id -> constraint, id -> removal reason) + reference evaluator; invariant checked after every step; non-trivial = history with a successful relax followed by a restore of the same id and at least one failing operation; distinct = sha256(instance, history)"
     }
     fn required_labels(&self) -> Vec<String> {
-        ["restore-ok", "relax-ok", "relax-unknown", "relax-removed-id", "restore-active-id", "restore-unknown", "flag-changes", "eval-step", "relax-then-restore-same-id"].iter().map(|s| s.to_string()).collect()
+        ["restore-ok", "relax-ok", "relax-unknown", "relax-removed-id", "restore-active-id", "restore-unknown", "flag-changes", "eval-step", "relax-then-restore-same-id", "eval-samples-step", "placed-inside-tolerance"].iter().map(|s| s.to_string()).collect()
     }
     fn cases(&self, tier: Tier) -> usize {
         match tier {
@@ -65,7 +67,7 @@ impl Property for C14 {
         // history drawn early (ids as indices into the id universe, resolved later)
         let mut raw_ops: Vec<(u8, u8, u8)> = vec![];
         for _ in 0..nops {
-            raw_ops.push((t.weighted(&[5, 5, 3]) as u8, t.byte(), t.byte()));
+            raw_ops.push((t.weighted(&[5, 5, 3, 2]) as u8, t.byte(), t.byte()));
         }
         let mut cfg = InstCfg::new(regime);
         cfg.allow_deps = false;
@@ -73,9 +75,28 @@ impl Property for C14 {
         cfg.max_removed = 3;
         cfg.func.max_terms = 4;
         cfg.func.max_degree = 2;
-        let gi = gen_instance(t, &cfg, ctx);
-        let mut inst = gi.inst.clone();
+        let place: Vec<u8> = (0..8).map(|_| t.byte()).collect();
+        let mut gi = gen_instance(t, &cfg, ctx);
         let states: Vec<v1::State> = (0..2).map(|_| gen_inst_state(t, &gi, regime, true)).collect();
+        // place constraint values of the probe states around the feasibility tolerance, so that the flags
+        // depend on which list a constraint is in and on the tolerance that list is checked with
+        {
+            let targets = [0.0, 0.5e-6, -0.5e-6, 2e-6, -2e-6, -1.0, 3.0e-7];
+            let na = gi.inst.constraints.len();
+            for i in 0..(na + gi.inst.removed_constraints.len()) {
+                let b = place[i % place.len()];
+                if b % 3 == 0 {
+                    continue;
+                }
+                let target = targets[(b as usize / 3) % targets.len()];
+                let st = &states[(b as usize / 32) % 2];
+                let c = if i < na { &mut gi.inst.constraints[i] } else { gi.inst.removed_constraints[i - na].constraint.as_mut().unwrap() };
+                if crate::props::c05::place_constraint_value(c, st, target) && target.abs() < 1e-6 && target != 0.0 {
+                    ctx.label("placed-inside-tolerance");
+                }
+            }
+        }
+        let mut inst = gi.inst.clone();
         let initial = match all_constraints(&inst) {
             Ok(m) => m,
             Err(e) => return fail("C14/generator", e),
@@ -128,7 +149,8 @@ impl Property for C14 {
                         }
                         Op::Restore(id)
                     }
-                    _ => Op::Eval((*b as usize) % states.len()),
+                    2 => Op::Eval((*b as usize) % states.len()),
+                    _ => Op::EvalSamples,
                 });
             }
         }
@@ -186,6 +208,38 @@ impl Property for C14 {
                         }
                         (true, Err(e)) => return fail("C14/restore-removed-failed", ctxmsg(format!("restore of a removed constraint failed: {e:#}"))),
                         (false, Ok(())) => return fail("C14/restore-non-removed-succeeded", ctxmsg("restore of an id that is not removed succeeded".into())),
+                    }
+                }
+                Op::EvalSamples => {
+                    ctx.label("eval-samples-step");
+                    let mut samples = v1::Samples::default();
+                    // ids 0,1 share state 0; ids 2,3 share state 1 (compressed entries)
+                    for (sid, si) in [(0u64, 0usize), (2, 1), (1, 0), (3, 1)] {
+                        samples.add_sample(sid, states[si].clone());
+                    }
+                    let ms: Vec<_> = states.iter().map(|st| model::evaluate(&inst, st)).collect();
+                    match inst.evaluate_samples(&samples) {
+                        Ok((ss, _)) => {
+                            for (sid, si) in [(0u64, 0usize), (1, 0), (2, 1), (3, 1)] {
+                                if let Ok(m) = &ms[si] {
+                                    if let Some(fe) = m.feasible {
+                                        if ss.feasible.get(&sid) != Some(&fe) {
+                                            return fail("C14/eval-samples/feasible", ctxmsg(format!("evaluate_samples reports feasible={:?} for sample {sid} (state {:?}), reference {fe}", ss.feasible.get(&sid), sorted_state(&states[si]))));
+                                        }
+                                    }
+                                    if let Some(fr) = m.feasible_relaxed {
+                                        if ss.feasible_relaxed.get(&sid) != Some(&fr) {
+                                            return fail("C14/eval-samples/feasible-relaxed", ctxmsg(format!("evaluate_samples reports feasible_relaxed={:?} for sample {sid}, reference {fr}", ss.feasible_relaxed.get(&sid))));
+                                        }
+                                    }
+                                }
+                            }
+                        }
+                        Err(e) => {
+                            if ms.iter().all(|m| m.is_ok()) {
+                                return fail("C14/eval-samples/err", ctxmsg(format!("evaluate_samples failed: {e:#}")));
+                            }
+                        }
                     }
                 }
                 Op::Eval(i) => {
